@@ -21,6 +21,7 @@ type vhDualSpec struct {
 	policy v1.IPFamilyPolicy
 	c4, c6 bool // cluster IP families
 	req    []string // explicitly requested addresses
+	rec    []string // recorded addresses that must survive a restart
 }
 
 func vhIsV4(ip net.IP) bool { return ip.To4() != nil }
@@ -31,12 +32,15 @@ func vhIsV4(ip net.IP) bool { return ip.To4() != nil }
 // first Service starts with a recorded IPv4 address; 2: and (if dual-stack) requests that address plus a
 // specific IPv6 address.
 func VerifControllerDual(nsvc, layout, recorded int) {
-	c4 := "10.0.0.0/31"
+	c4, c6 := "10.0.0.0/31", "fd00::/127"
 	if layout == 1 {
 		c4 = "10.0.0.0/32"
 	}
+	if layout == 2 {
+		c6 = "fd00::/128"
+	}
 	_, n4, _ := net.ParseCIDR(c4)
-	_, n6, _ := net.ParseCIDR("fd00::/127")
+	_, n6, _ := net.ParseCIDR(c6)
 	pools := &config.Pools{ByName: map[string]*config.Pool{"p0": {Name: "p0", CIDR: []*net.IPNet{n4, n6}, AutoAssign: true}}, ByNamespace: map[string][]string{}}
 	api := &vhAPI{objs: map[string]*v1.Service{}, perm: vr.Choose(2)}
 	var specs []*vhDualSpec
@@ -71,6 +75,23 @@ func VerifControllerDual(nsvc, layout, recorded int) {
 		if recorded >= 1 && i == 0 && s.c4 {
 			svc.Status.LoadBalancer.Ingress = []v1.LoadBalancerIngress{{IP: "10.0.0.0"}}
 			svc.Annotations[AnnotationIPAllocateFromPool] = "p0"
+		}
+		if recorded == 3 {
+			// restart: s0 PreferDualStack holds one IPv4 address, s1 RequireDualStack holds a pair; the
+			// pool's only IPv6 address is s1's
+			s.policy, s.c4, s.c6 = []v1.IPFamilyPolicy{v1.IPFamilyPolicyPreferDualStack, v1.IPFamilyPolicyRequireDualStack}[i], true, true
+			pol = s.policy
+			svc.Spec.IPFamilyPolicy = &pol
+			svc.Spec.ClusterIPs, svc.Spec.ClusterIP = []string{"10.96.0.7", "fd96::7"}, "10.96.0.7"
+			svc.Spec.IPFamilies = []v1.IPFamily{v1.IPv4Protocol, v1.IPv6Protocol}
+			svc.Annotations[AnnotationIPAllocateFromPool] = "p0"
+			if i == 0 {
+				svc.Status.LoadBalancer.Ingress = []v1.LoadBalancerIngress{{IP: "10.0.0.0"}}
+				s.rec = []string{"10.0.0.0"}
+			} else {
+				svc.Status.LoadBalancer.Ingress = []v1.LoadBalancerIngress{{IP: "10.0.0.1"}, {IP: "fd00::"}}
+				s.rec = []string{"10.0.0.1", "fd00::"}
+			}
 		}
 		if recorded == 2 && i == 0 && s.c4 && s.c6 {
 			// the user asks for the address held plus a specific address of the other family
@@ -119,6 +140,13 @@ func VerifControllerDual(nsvc, layout, recorded int) {
 			}
 		}
 		g := res[i]
+		if len(s.rec) > 0 {
+			same := len(ips) == len(s.rec)
+			for k := range s.rec {
+				same = same && k < len(ips) && ips[k].Equal(net.ParseIP(s.rec[k]))
+			}
+			vr.Assert(same, "a Service lost or changed its recorded, still admissible addresses across a restart")
+		}
 		if len(s.req) > 0 && len(ips) > 0 {
 			okReq := len(ips) == len(s.req)
 			for _, r := range s.req {
@@ -147,15 +175,18 @@ func VerifControllerDual(nsvc, layout, recorded int) {
 		}
 	}
 	// C07 at the family level: a Service without address could not have been given one
-	cap4 := 2
+	cap4, cap6 := 2, 2
 	if layout == 1 {
 		cap4 = 1
+	}
+	if layout == 2 {
+		cap6 = 1
 	}
 	for i, s := range specs {
 		if len(api.objs[s.name].Status.LoadBalancer.Ingress) != 0 {
 			continue
 		}
-		free4, free6 := cap4-held4 > 0, 2-held6 > 0
+		free4, free6 := cap4-held4 > 0, cap6-held6 > 0
 		var could bool
 		switch {
 		case s.policy == v1.IPFamilyPolicyRequireDualStack:
